@@ -489,7 +489,10 @@ class Speller:
             parts.append(self.name(n_abs))
         self.last = n_abs
         tt = self.ttl_text(ttl)
-        omit_ttl = f.get("omit_ttl", (not self.plain) and ((self.ttl_default == ttl) and rng.random() < 0.5))
+        # an omitted TTL means: the $TTL default, else the SOA minimum once the SOA was read, else
+        # the TTL of the previous record (RFC 1035 5.1 / RFC 2308 4)
+        inherited = self.ttl_default if self.ttl_default is not None else self.last_ttl
+        omit_ttl = f.get("omit_ttl", (not self.plain) and inherited == ttl and rng.random() < 0.5)
         cls = f.get("cls", rng.choice([b"IN", b"IN", b"in", b"CLASS1", None]) if not self.plain else b"IN")
         if omit_ttl:
             mid = [cls] if cls else []
@@ -500,6 +503,8 @@ class Speller:
             else:
                 mid = [tt] + ([cls] if cls else [])
         parts += mid
+        if ty == 6 and self.ttl_default is None:
+            self.ttl_default = fields[6][1]  # no $TTL so far: the SOA minimum becomes the default
         tyt = type_text(ty).encode()
         if not self.plain:
             r = rng.random()
@@ -780,7 +785,7 @@ def cases(ctx):
         yield "ttl-rt", [23, n]
 
     # --- print: model vs implementation text, every style combination incl. lossy ones
-    for i in range(ctx.n(60, 1200)):
+    for i in range(ctx.n(60, 800)):
         origin, rel, nodes = gen_zone(rng, max_names=rng.choice([0, 2, 5]))
         zo = zone_obs(origin, rel, nodes)
         if rng.random() < 0.1 and zo:
@@ -790,7 +795,7 @@ def cases(ctx):
             yield "print", [2, origin, int(rel), zo, style_obs(st)]
 
     # --- read: zone files in many spellings
-    for i in range(ctx.n(250, 5000)):
+    for i in range(ctx.n(250, 4000)):
         r = rng.random()
         mutated = 0.32 <= r < 0.42
         # mutated files only use types whose rdata the model validates exactly
@@ -828,26 +833,26 @@ def cases(ctx):
         yield "read", [1, origin if give_origin else None, int(rel), chk, text]
 
     # --- oracle-only: rich record types, printed under lossless styles and read back
-    for i in range(ctx.n(80, 1500)):
+    for i in range(ctx.n(80, 800)):
         origin = gen_origin(rng)
         rel = rng.random() < 0.5
         text = rich_zone_text(rng, origin)
-        for _ in range(ctx.n(4, 8)):
+        for _ in range(ctx.n(4, 6)):
             yield "roundtrip", [20, origin, int(rel), text, rich_style(rng, origin)]
     # the same on the modelled types with the structured generator (odd names, boundary TTLs)
-    for i in range(ctx.n(80, 1500)):
+    for i in range(ctx.n(80, 800)):
         origin, rel, nodes = gen_zone(rng, max_names=rng.choice([1, 3, 6]))
         text = zone_file(rng, origin, rel, nodes, plain=True)
-        for _ in range(ctx.n(3, 6)):
+        for _ in range(ctx.n(3, 4)):
             yield "roundtrip", [20, origin, int(rel), text, rich_style(rng, origin)]
 
     # --- oracle-only: respellings
-    for i in range(ctx.n(150, 3000)):
+    for i in range(ctx.n(150, 2000)):
         origin, rel, nodes = gen_zone(rng, max_names=rng.choice([1, 3, 6]))
         t1 = zone_file(rng, origin, rel, nodes, plain=True)
         t2 = zone_file(rng, origin, rel, nodes, plain=False, noise=0.2)
         yield "respell", [21, origin, int(rel), t1, t2]
-    for i in range(ctx.n(100, 2000)):
+    for i in range(ctx.n(100, 1200)):
         origin, rel, nodes = gen_zone(rng, max_names=1)
         base = zone_file(rng, origin, rel, nodes, plain=True)
         sp = Speller(rng, origin)
